@@ -18,6 +18,22 @@ LEVEL_TEXT = ("Static structural proof of necessary conditions: (R11.1) every fu
 LEVEL_EXTRA = 'Added after the seeded evaluation: (R11.3) number-then-unit is accepted only for non-prefix units and unit-then-number only for prefix units (complementary tests of unitPrefix); (R11.4) unit and prefix conversion factors are parsed by the same chain; (R11.5) a prefix name is never case-folded. (R11.6) a number obtained with float()/int() is never tested for truthiness. (R11.7) the unit report is reachable when extra words precede a unit; a caret in a conversion factor is read as exponentiation.'
 
 
+def _is_prefix_test(prog, x):
+    """`...UnitPrefix` itself, or an attribute/method of a repository class that answers with a (non-negated) test of it."""
+    if not isinstance(x, ast.Attribute):
+        return False
+    if x.attr == "UnitPrefix":
+        return True
+    for h in prog.by_func_name.get(x.attr, []):
+        if h.cls is None:
+            continue
+        rets = [r for r in walk_no_nested(h.node) if isinstance(r, ast.Return) and r.value is not None]
+        if len(rets) == 1 and any(isinstance(y, ast.Attribute) and y.attr == "UnitPrefix" for y in ast.walk(rets[0].value)) \
+                and not any(isinstance(y, ast.UnaryOp) and isinstance(y.op, ast.Not) for y in ast.walk(rets[0].value)):
+            return True
+    return False
+
+
 def run(ctx):
     prog, cg = ctx.prog, ctx.cg
     ctx.rule("R11.1", "validation and conversion look units up with the same normalisation set and the symbol exception")
@@ -89,13 +105,13 @@ def run(ctx):
                 in_body = any(cur is x for x in par.body)
                 break
             cur = par
-        has = enclosing is not None and any(isinstance(x, ast.Attribute) and x.attr == "UnitPrefix" for x in ast.walk(enclosing.test))
+        has = enclosing is not None and any(_is_prefix_test(prog, x) for x in ast.walk(enclosing.test))
         if not has:
             ctx.violation("R11.3", gup.qualname, r.ast, loc(gup, r.ast),
                           "this accepting return is not directly guarded by a test of the unit's unitPrefix attribute: a unit is "
                           "accepted on the wrong side of the number (e.g. `Distance/cm 3`)")
             continue
-        negated = any(isinstance(x, ast.UnaryOp) and isinstance(x.op, ast.Not) and "UnitPrefix" in norm(x.operand)
+        negated = any(isinstance(x, ast.UnaryOp) and isinstance(x.op, ast.Not) and any(_is_prefix_test(prog, y) for y in ast.walk(x.operand))
                       for x in ast.walk(enclosing.test))
         required = in_body != negated
         pol.append(required)
